@@ -63,12 +63,12 @@ def exec_layouts(res, a, desc, rng, case):
     j = a.ode.jac
     n = j.nrow
     nre = len(a.info.reactions)
-    ko = [Fraction(l % 13 + 3, 16) for l in range(nre)]
+    ko = [Fraction(l % 13 + 3, 16) for l in range(nre)] if desc["reactions"] else [Fraction(0)]      # NREACTIONS is 1 without reactions; k[0] stays 0.0
     thermal = bool(a.info.heating or a.info.cooling)
     y = [Fraction(rng.randint(1, 64), 8) for _ in a.aliases] + ([Fraction(100)] if thermal else [])
     kh = [Fraction(rng.randint(1, 8), 8) for _ in a.info.heating]
     kc = [Fraction(rng.randint(1, 8), 8) for _ in a.info.cooling]
-    methods = ["dense", "sparse", "cusparse"] + ([] if (thermal or desc.get("rate_modifier") or desc.get("tmin") or desc.get("tmax")) else ["odeint"])
+    methods = ["dense", "sparse", "cusparse"] + ([] if (thermal or desc.get("rate_modifier") or desc.get("tmin") or desc.get("tmax") or desc.get("edits")) else ["odeint"])
     preps = [ol.prep_odeint(desc, ko) if m == "odeint" else ol.prep_cusparse(desc) if m == "cusparse" else ol.prep_fexjac(desc, m) for m in methods]
     diags = ol.compile_all([c for c, _ in preps])
     outs = {}
